@@ -371,7 +371,19 @@ def compare(ctx: Ctx, doc, impl, model_line: str, exact_ratios=None) -> None:
     if len(impl["cells"]) != len(model["cells"]):
         return bad("cell-count")
     drift = False
-    for i, (a, b) in enumerate(zip(impl["cells"], model["cells"])):
+    # the order of the cell list is not part of the property: match every implementation cell with a model cell at
+    # the same place (and with the same flag), then compare the pairs
+    pool = list(model["cells"])
+    paired = []
+    for a in impl["cells"]:
+        j = next((j for j, b in enumerate(pool) if a["fixed"] == b["fixed"] and sorted(a["alloc"]) == sorted(b["alloc"]) and
+                  all(_close(u, v, mode)[0] for u, v in zip(a["r"], b["r"]))), None)
+        if j is None:
+            return bad("cell-not-in-model:" + str(a["r"]))
+        paired.append((a, pool.pop(j)))
+    if [id(b) for _, b in paired] != [id(b) for b in model["cells"]]:
+        ctx.count("cell-order-differs-from-model")
+    for i, (a, b) in enumerate(paired):
         if (a["region"], a["fixed"], a["hard"], a["depth"]) != (b["region"], b["fixed"], b["hard"], b["depth"]):
             return bad(f"cell{i}-attributes")
         if sorted(a["alloc"]) != sorted(b["alloc"]):
